@@ -49,7 +49,7 @@ def run(env, rep):
         "ChunkSerializer field and no Packet is built outside chunk_io::serializer; R4: the can_be_dropped argument of serialize is "
         "the constant false everywhere except where it is a public media function's own can_be_dropped parameter, and "
         "force_uncompressed is a constant; R5: the session clock is narrowed to u32 by a truncating cast (it wraps like the codec's "
-        "timestamps); R6-R8: the serializer-level rules of C08 R1-R2, C01 R2-R3 and C07 R5 (chunk size announced before use) that keep the stream decodable after dropped "
+        "timestamps); R6-R8: the serializer-level rules of C08 R1-R2, C01 R2-R3 and R5 (absolute vs delta timestamps per format) and C07 R5-R6 (chunk size announced before use, no empty chunk after a complete payload) that keep the stream decodable after dropped "
         "packets and across multi-chunk messages.  Not decided: decodability of the whole stream by a conformant peer at every uptime.")
     n_prod = 0
     n_fn = 0
@@ -205,7 +205,7 @@ def run(env, rep):
     if wants(rep, "C18.R6"):
         C08.run(env, PrefixReport(rep, "C08.", "C18.R6.", only=("C08.R1", "C08.R2")))
     if wants(rep, "C18.R7"):
-        C01.run(env, PrefixReport(rep, "C01.", "C18.R7.", only=("C01.R2", "C01.R3")))
+        C01.run(env, PrefixReport(rep, "C01.", "C18.R7.", only=("C01.R2", "C01.R3", "C01.R5")))
     from . import C07
     if wants(rep, "C18.R8"):
-        C07.run(env, PrefixReport(rep, "C07.", "C18.R8.", only=("C07.R5",)))
+        C07.run(env, PrefixReport(rep, "C07.", "C18.R8.", only=("C07.R5", "C07.R6")))
